@@ -181,6 +181,7 @@ fn recheck(g: &[Chan], q: &Req, r: &[Vec<Hop>]) -> Result<(), (&'static str, Str
 		for h in path.iter() { chans.push(lookup(g, h.scid, src, h.node)); src = h.node; }
 		for i in 0..n {
 			let c = match chans[i] { Some(c) => c, None => { chain_err.get_or_insert(format!("path {} hop {}: no channel {} from node {} to node {} in the graph", pi, i, path[i].scid, if i == 0 { q.payer } else { path[i - 1].node }, path[i].node)); break; } };
+			if lookup(g, c.scid, c.dst, c.src).is_none() { chain_err.get_or_insert(format!("path {} hop {}: channel {} has no policy for the reverse direction (not usable)", pi, i, c.scid)); }
 			if !c.enabled { chain_err.get_or_insert(format!("path {} hop {}: channel {} direction disabled", pi, i, c.scid)); }
 			if (c.hmin as u128) > amts[i] { chain_err.get_or_insert(format!("path {} hop {}: amount {} below htlc_minimum {} of channel {}", pi, i, amts[i], c.hmin, c.scid)); }
 			if q.excluded.contains(&c.scid) { chain_err.get_or_insert(format!("path {} hop {}: excluded channel {}", pi, i, c.scid)); }
@@ -233,6 +234,14 @@ fn recheck(g: &[Chan], q: &Req, r: &[Vec<Hop>]) -> Result<(), (&'static str, Str
 	Ok(())
 }
 
+/// signature of finding KF-C16-1: the route delivers more than requested and some path's final hop sits
+/// exactly at its channel's htlc_minimum (update_value_and_recompute_fees raised it)
+fn final_raise_signature(g: &[Chan], q: &Req, r: &[Vec<Hop>]) -> bool {
+	let delivered: u128 = r.iter().map(|p| p.last().map_or(0, |h| h.fee as u128)).sum();
+	if delivered <= q.amt as u128 { return false; }
+	r.iter().any(|p| { let n = p.len(); let src = if n >= 2 { p[n - 2].node } else { q.payer }; match lookup(g, p[n - 1].scid, src, p[n - 1].node) { Some(c) => c.hmin == p[n - 1].fee, None => false } })
+}
+
 /// claim about the fee recurrence: `eq` if at least one path is comparable (final hop above its minimum)
 fn recur_claim(g: &[Chan], q: &Req, r: &[Vec<Hop>]) -> &'static str {
 	let mut any = false;
@@ -245,7 +254,7 @@ fn recur_claim(g: &[Chan], q: &Req, r: &[Vec<Hop>]) -> &'static str {
 	if any { "eq" } else { "skip" }
 }
 
-fn usable(q: &Req, c: &Chan) -> bool { c.enabled && c.hmin <= q.amt && q.amt <= c.limit() && !q.excluded.contains(&c.scid) }
+fn usable(g: &[Chan], q: &Req, c: &Chan) -> bool { lookup(g, c.scid, c.dst, c.src).is_some() && c.enabled && c.hmin <= q.amt && q.amt <= c.limit() && !q.excluded.contains(&c.scid) }
 /// reference reachability (same definition as Lean `singlePathExists`)
 fn reference(g: &[Chan], q: &Req, edge_ok: &dyn Fn(&Chan) -> bool) -> bool {
 	let mut seen: HashSet<usize> = HashSet::new();
@@ -359,7 +368,7 @@ fn to_hops(route: &Route, w: &World) -> Vec<Vec<Hop>> {
 /// upper bound of ANY amount a simple path could accumulate (amount + worst-case fees), with minimums
 /// at most the bare amount, short enough and with CLTV limits that cannot bind.
 fn ample_path_exists(g: &[Chan], q: &Req, n_nodes: usize, mult: u128) -> bool {
-	let usable_all: Vec<&Chan> = g.iter().filter(|c| c.enabled && !q.excluded.contains(&c.scid)).collect();
+	let usable_all: Vec<&Chan> = g.iter().filter(|c| c.enabled && !q.excluded.contains(&c.scid) && lookup(g, c.scid, c.dst, c.src).is_some()).collect();
 	let maxbase = usable_all.iter().map(|c| c.base as u128).max().unwrap_or(0);
 	let maxprop = usable_all.iter().map(|c| c.prop as u128).max().unwrap_or(0);
 	let maxcltv_delta = usable_all.iter().map(|c| c.cltv).max().unwrap_or(0);
@@ -371,7 +380,7 @@ fn ample_path_exists(g: &[Chan], q: &Req, n_nodes: usize, mult: u128) -> bool {
 	let mut bound = 3 * q.amt as u128; // the router may search with 3x the value (recommended_value_msat)
 	for _ in 0..hops { bound = bound + maxbase + (bound * maxprop + 999_999) / 1_000_000 + 1; if bound > (1u128 << 62) { return false; } }
 	let need = bound * mult;
-	reference(g, q, &|c: &Chan| usable(q, c) && (c.limit() as u128) >= need)
+	reference(g, q, &|c: &Chan| usable(g, q, c) && (c.limit() as u128) >= need)
 }
 
 fn router_model(args: &Args) {
@@ -385,7 +394,7 @@ fn router_model(args: &Args) {
 	let index: HashMap<NodeId, usize> = ids.iter().enumerate().map(|(i, id)| (*id, i)).collect();
 	let w = World { pks, ids, index };
 	let chain = ChainHash::using_genesis_block(Network::Testnet);
-	let n_graphs = if args.thorough { 6000 } else { 260 } * args.scale;
+	let n_graphs = if args.thorough { 8000 } else { 1500 } * args.scale;
 	let per_graph = if args.thorough { 14 } else { 10 };
 	let (mut n_ok, mut n_err, mut n_panic, mut n_multi, mut n_raise) = (0u64, 0u64, 0u64, 0u64, 0u64);
 	for _ in 0..n_graphs {
@@ -430,7 +439,8 @@ fn router_model(args: &Args) {
 			match res {
 				Err(p) => {
 					n_panic += 1;
-					rec.oracle_fail(format!("find_route panicked ({}) on: noroute {} {}", p.replace('\n', " "), req_str(&q), gs));
+					let tag = if p.contains("Paths should always send more than 0 msat") { "KF-C16-2 debug_assert value_msat > 0 in get_cost_per_msat: " } else { "" };
+					rec.oracle_fail(format!("{}find_route panicked ({}) on: noroute {} {}", tag, p.replace('\n', " "), req_str(&q), gs));
 					*rec.classes.entry("find_route:panic".into()).or_insert(0) += 1;
 				},
 				Ok(Ok(route)) => {
@@ -440,7 +450,9 @@ fn router_model(args: &Args) {
 					let op = format!("route {} {} {}", req_str(&q), gs, route_str(&r));
 					let verdict = match recheck(&g, &q, &r) {
 						Ok(()) => "valid".to_string(),
-						Err((clause, detail)) => { rec.oracle_fail(format!("find_route returned a route violating clause `{}`: {} | {}", clause, detail, op)); format!("invalid {}", clause) },
+						Err((clause, detail)) => {
+							let tag = if clause == "chain" && detail.contains("is paid") && final_raise_signature(&g, &q, &r) { "KF-C16-1 final-hop raised to htlc_minimum, upstream fee computed without the raise: " } else { "" };
+							rec.oracle_fail(format!("{}find_route returned a route violating clause `{}`: {} | {}", tag, clause, detail, op)); format!("invalid {}", clause) },
 					};
 					// classify: shape of the route and whether a raise to a minimum is visible
 					let mut raised = false;
@@ -453,7 +465,7 @@ fn router_model(args: &Args) {
 				},
 				Ok(Err(e)) => {
 					n_err += 1;
-					let found = reference(&g, &q, &|c: &Chan| usable(&q, c));
+					let found = reference(&g, &q, &|c: &Chan| usable(&g, &q, c));
 					let op = format!("noroute {} {}", req_str(&q), gs);
 					let class;
 					if found {
@@ -526,7 +538,7 @@ fn replay_model(args: &Args) {
 		}));
 		match res {
 			Err(p) => println!("panic {}", p),
-			Ok(Err(e)) => println!("err {} (reference: {})", e, if reference(&g, &q, &|c: &Chan| usable(&q, c)) { "found" } else { "none" }),
+			Ok(Err(e)) => println!("err {} (reference: {})", e, if reference(&g, &q, &|c: &Chan| usable(&g, &q, c)) { "found" } else { "none" }),
 			Ok(Ok(route)) => { let r = to_hops(&route, &w); println!("{} -> {:?}", route_str(&r), recheck(&g, &q, &r)); },
 		}
 	}
